@@ -316,3 +316,32 @@ def elementwise(db, fn):
                 return t
             return rewrite(body, clos), 'map'
     return None, f'neither one push in a loop nor collect(map(..)): returns {exprtree.show(rt)[:100]}'
+
+
+def powers_roles(db):
+    """powers_array's parameters by role, whatever their order: {'fn', 'n': k (the integer parameter), 'alpha': k (the Felt
+    parameter the accumulator is multiplied by), 'initial': k or None (another Felt parameter, if any)}; None if the
+    function is missing or the roles are ambiguous"""
+    import dataflow
+    cands = [p for p in db.fns if p.endswith('::commit::powers_array')]
+    if len(cands) != 1:
+        return None
+    fn = db.fns[cands[0]]
+    ints = [k for k in range(1, fn.arg_count + 1) if fn.local_ty(k) in ('u32', 'u64', 'usize', 'u128', 'u16')]
+    felts = [k for k in range(1, fn.arg_count + 1) if fn.local_ty(k).endswith('::Felt')]
+    if len(ints) != 1 or not 1 <= len(felts) <= 2:
+        return None
+    fl = dataflow.Flow(db, fn)
+    mult = set()
+    for _, t in fn.calls():
+        if t['f'].get('name') in ('mul_assign', 'mul') and len(t.get('args', [])) == 2:
+            for a in t['args']:
+                lv = set(fl.operand_leaves(a))
+                for k in felts:
+                    if lv == {f'a{k}'}:
+                        mult.add(k)
+    if len(mult) != 1:
+        return None
+    alpha = next(iter(mult))
+    rest = [k for k in felts if k != alpha]
+    return {'fn': fn, 'n': ints[0], 'alpha': alpha, 'initial': rest[0] if rest else None}
